@@ -58,8 +58,21 @@ func (w *kWorld) judgeStep(st *kStep, j *kJudge) {
 		if st.Rec.ByF != st.F.idx {
 			j.count("dec-cross-process")
 		}
+		revokedChain := ikRow != nil && ikRow.Rec.Revoked
+		if ikRow != nil && ikRow.Rec.ParentKeyMeta != nil {
+			if sk := w.row(skID, ikRow.Rec.ParentKeyMeta.Created); sk != nil && sk.Rec.Revoked {
+				revokedChain = true
+			}
+		}
+		if revokedChain {
+			j.count("C05.dec-under-revoked-chain")
+		}
 		if st.Err != nil {
 			j.fail("C01", "dec-error:"+errClass(st.Err), "%s at t=%d of a record written under IK %d failed: %v", st.Op, t, st.Rec.IKCreated, st.Err)
+			if revokedChain {
+				// C05: records written under a revoked key remain decryptable
+				j.fail("C05", "revoked-key-record-undecryptable:"+errClass(st.Err), "%s at t=%d: a record written under the revoked key chain (IK %d) no longer decrypts: %v", st.Op, t, st.Rec.IKCreated, st.Err)
+			}
 		} else if !bytes.Equal(st.Out, st.Rec.Payload) {
 			j.fail("C01", "dec-wrong-bytes", "%s returned %x, want %x", st.Op, st.Out, st.Rec.Payload)
 		}
